@@ -149,8 +149,10 @@ func (v *Version) UnmarshalText(text []byte) error {
 
 // UnmarshalFlag implements the flags.Unmarshaler interface.
 func (v *Version) UnmarshalFlag(in string) error {
-	if strings.HasPrefix(in, ">=") {
-		v.IsGTE = true
+	// N.B. this can be called again on a value that is already set (e.g. by a later config file), so IsGTE
+	//      must be assigned either way rather than only ever being turned on.
+	v.IsGTE = strings.HasPrefix(in, ">=")
+	if v.IsGTE {
 		in = strings.TrimSpace(strings.TrimPrefix(in, ">="))
 	}
 	v.IsSet = true
